@@ -1201,8 +1201,10 @@ def monitors(tr, endT, cfg=CFG):
             if k == 0:
                 ok = any(sd[2] == h and sd[4] is None and lo <= sd[0] <= hi and qm_item(sd[5], ty, h, sd[0], True) for sd in sends)
             else:
+                # a heard question suppresses the host's own if its known answers are among the host's own when the own question is
+                # due (RFC 6762 7.3) - up to dupQ later, so `received` is taken at the end of the window for the heard alternative
                 ok = any(sd[2] == h and sd[4] is None and lo - cfg["dupQ"] <= sd[0] <= hi and qm_item(sd[5], ty, h, sd[0], False) for sd in sends) \
-                    or any(e[4] == h and e[5] and lo - cfg["dupQ"] <= e[0] <= hi and qm_item(e[6], ty, h, e[0], False) for e in dlvs)
+                    or any(e[4] == h and e[5] and lo - cfg["dupQ"] <= e[0] <= hi and qm_item(e[6], ty, h, hi, False) for e in dlvs)
             if not ok:
                 bad["K3"].append(["query-opportunity-missing", t, k, br])
 
@@ -1222,7 +1224,7 @@ def monitors(tr, endT, cfg=CFG):
                 if s[0] == h and s[1] == it[1] and s not in it[2] and reg_since(s, a - cfg["respBefore"], y_incl=a + cfg["respAfter"]):
                     ok = any(sd[2] == h and a - cfg["respBefore"] <= sd[0] <= a + cfg["respAfter"]
                              and (sd[4] is None or (it[3] and sd[4] == src))
-                             and pos_full(sd[5], s) for sd in sends)
+                             and (ptr_of(sd[5], s) or 0) > 0 for sd in sends)
                     if not ok:
                         bad["K4"].append(["query-unanswered", a, h, s, it[3]])
 
@@ -1296,7 +1298,10 @@ def monitors(tr, endT, cfg=CFG):
                         a, hi = tb + cfg["qLo"] + off - cfg["dupQ"], tb + cfg["qHi"] + off
                     if hi > endT:
                         continue
-                    if any(e[4] == h and ptr_of(e[6], sv) is not None and x[0] < e[0] <= hi for e in dlvs):
+                    # the record is still the last PTR(s) the host processed, in trace order (a record processed later in the
+                    # same millisecond supersedes: lastPtrIs)
+                    upto = [e for e in dlvs if e[4] == h and ptr_of(e[6], sv) is not None and e[0] <= hi]
+                    if not upto or upto[-1] != x:
                         continue
                     ok = any(sd[2] == h and sd[4] is None and a <= sd[0] <= hi and asks_without(sd[5], ty, sv) for sd in sends) \
                         or any(e[4] == h and e[5] and a <= e[0] <= hi and asks_without(e[6], ty, sv) for e in dlvs)
